@@ -232,5 +232,10 @@ def replay(ctx, path):
     tracker = vlib.model_driver("C05")
     _, oi, _ = vlib.run_lines(exe, [case], args=["trace"]); _, ot, _ = vlib.run_lines(tracker, oi)
     print("input:", describe(case)); print("impl :", oi); print("tracker:", ot)
+    same = True
+    if obj["replay"].get("kind") == "trace-correspondence":
+        _, om, _ = vlib.run_lines(tracker, ["T " + case])
+        print("model:", om)
+        same = bool(om) and om[0] != "ORACLE" and om[0].endswith("|legal") and canon_trace(oi[0]) == canon_trace(om[0].partition(" |")[0])
     shutil.rmtree(ctx.scratch, ignore_errors=True)
-    return 0 if ot == ["OK"] else 1
+    return 0 if ot == ["OK"] and same else 1
